@@ -146,6 +146,11 @@ def main(tier="quick", seed=0):
     quick = tier == "quick"
     rng = np.random.default_rng(seed + 8)
     ENTRIES.update({e.name: e for e in zoo.entries()})
+    # the sub-sampling wrapper with a fractional sub-sample size (the size and the drawn sub-sample must not
+    # depend on how the candidates are addressed)
+    # (exclude_non_subsample=False: with True, feature-row candidates are by design not part of the reduced
+    #  training set - the recorded C20 finding - so the wrapped model legitimately sees other data)
+    ENTRIES.update({e.name: e for e in zoo.wrapper_entries(mcs=(0.3, 0.5)) if "exclude_non_subsample=False" in e.name})
     chk.model_check("MC_Addressing", "MC_Addressing.cfg")
     dev = tlc.run_tlc("MC_Addressing", "MC_Addressing_dev.cfg", timeout=600)
     if not any("ModeEquiv" in e for e in dev.errors):
